@@ -23,7 +23,16 @@ def run(ctx):
         "Go uint64 = BitVec 64; Go shifts with an unsigned count = BitVec shifts with a Nat count; an int64 operand is "
         "its two's-complement bit pattern",
         "divBinaryShiftThreshold is read from the source on every run (Generated/Facts.lean) and used by the model's "
-        "division dispatch",
+        "division dispatch; the hand-copied constants bit32 and signBit are proved equal to the values read from the "
+        "source on this run (C01.consts_from_source)",
+        "the twelve division entry points are run through the partial-division model Model/U128Hw.lean: every machine "
+        "division x / y, x % y of the entry points and of the two Knuth kernels is a partial operation (the Go runtime's "
+        "integer-divide panic for y = 0, outcome hwdiv, printed panic:runtime-divide) kept apart from the library's explicit "
+        "panic(divByZero) (outcome divzero, printed panic:divzero); C01.hw_unsigned_eq / hw_signed_eq prove these functions "
+        "equal to the total model the spec theorems speak about, C01.hw_never_runtime_panic that hwdiv never occurs; the "
+        "harness classifies the recovered panic value the same way, so WHICH panic fires is compared on every zero divisor",
+        "the exported limit variables MaxUint128 / MaxInt128 / MinInt128 are printed by the `limit` lines and compared with "
+        "the model constants (C01.limits_spec); the harness also checks after every call that they are unmodified",
     ]
     ctx.modelled += [
         "translator tie: every loop-free, panic-free function of xmath/num (selected by the shape of its SSA form) is "
@@ -63,14 +72,148 @@ def run(ctx):
         "Signed DivMod (magnitudes, sign fix-up, MinInt128 wrap; Div and Mod as its components; DivMod64 as DivMod of the "
         "sign-extended operand) is proved against Int.tdiv / Int.tmod (C01.idivMod_spec, idiv_mul_add_mod, no kernel "
         "hypothesis), and so is Int128.Div64 with its own sign fix-up on an int64 (C01.idiv64_spec).",
+        "Panic clause: in the two anchored files the only partial machine operations are the integer divisions of the "
+        "division entry points and kernels (no indexing, no type assertion, no pointer dereference, every shift count is "
+        "converted to uint first) - established by reading, not by a per-run census; those divisions are partial in "
+        "Model/U128Hw.lean and proved never to divide by zero (C01.hw_never_runtime_panic), with the CONTRAST theorems "
+        "C01.hw_without_zero_test (an entry point without its explicit zero test raises the runtime's panic) and "
+        "C01.hw_kernel_unnormalised / hw_kernel_by64_iff (the kernel without the callers' normalisation count does).  For "
+        "every other operation 'never panics' holds of the model because its functions are total; there the claim is "
+        "carried by the correspondence run (the harness reports any recovered panic by class).",
+        "CONTRAST theorems (Lemmas/U128Contrast.lean holds the variants; none is executed by the driver): the code without "
+        "the carry/borrow, the cross products, both correction loops of divmod128by64, the final correction or the "
+        "estimate decrement of divmod128by128, the high/low split of the word-divisor case, the sign test of the signed "
+        "comparison, the sign extension of an int64 operand, the magnitudes of the signed division, and OnesCount as it "
+        "was before the fix each violate the proved statement on a concrete operand pair (C01.contrast_*).",
     ]
     ctx.harness("./cmd/c01")
     # The harness gives every call a 2 s deadline (`hang`, stream abandoned after three) and checks after every call
     # that the exported limit variables are intact; the stream time-out is therefore only a last resort.
     ctx.diff(area="int128", driver="drv_c01", n={"quick": 200000, "thorough": 20000000},
              trivial=lambda l, o: False, timeout=150 if ctx.tier == "quick" else 900,
+             tagger=_op_tag,
              theorem="C01.* (model = Z mod 2^128 specification); impl != model on this input")
+    _ops_reached(ctx)
+    _census(ctx)
     _paths(ctx)
+
+
+# every operation of the line protocol = every exported arithmetic / ordering / bit method of the two types (plus the
+# constructors and reinterpretations the harness uses on every line); the run fails if the generator stops reaching one
+U_OPS = ("add sub mul div mod divmod and or xor andnot andnot64 cmp gt ge eq lt le add64 sub64 mul64 div64 mod64 divmod64 "
+         "and64 or64 xor64 cmp64 gt64 ge64 eq64 lt64 le64 inc dec not bitlen onescount lz tz iszero isint128 isuint64 "
+         "asuint64 shl shr bit setbit from64 limit").split()
+I_OPS = ("add sub mul div mod divmod cmp gt ge eq lt le add64 sub64 mul64 div64 mod64 divmod64 cmp64 gt64 ge64 eq64 lt64 "
+         "le64 inc dec neg abs absu sign iszero isuint128 isint64 asint64 isuint64 asuint64 from64 fromu64 limit").split()
+
+
+def _bucket(tok):
+    """magnitude class of an operand token (`hi:lo` 128-bit pattern, `x<hex>` word, decimal count/index)"""
+    try:
+        if ":" in tok:
+            h, l = tok.split(":")
+            v = (int(h, 16) << 64) | int(l, 16)
+            if v == 0:
+                return "0"
+            if v == (1 << 128) - 1:
+                return "all-ones"
+            n = v.bit_length()
+            return "2^k" if v & (v - 1) == 0 else ("len<=64" if n <= 64 else "len65-127" if n < 128 else "len128")
+        if tok.startswith("x"):
+            v = int(tok[1:], 16)
+            if v == 0:
+                return "w0"
+            n = v.bit_length()
+            return "w2^k" if v & (v - 1) == 0 else ("wlen<=32" if n <= 32 else "wlen33-63" if n < 64 else "wlen64")
+        v = int(tok)
+        return "n<0" if v < 0 else "n0-63" if v < 64 else "n64-127" if v < 128 else "n>=128"
+    except ValueError:
+        return "?"
+
+
+_OPND = {}
+
+
+def _op_tag(line, out):
+    f = line.split(" ")
+    if len(f) < 2:
+        return None
+    # operand-magnitude distribution of the generator (evidence only): one count per (position, class)
+    for k, tok in enumerate(f[2:4]):
+        key = "opnd%d:%s" % (k + 1, _bucket(tok))
+        _OPND[key] = _OPND.get(key, 0) + 1
+    t = "op:" + f[0] + " " + f[1]
+    if out.startswith("panic:"):
+        t += " -> " + out
+    return t
+
+
+def _ops_reached(ctx):
+    """Generator self-check and distribution evidence: the tag histogram carries one `op:<type> <method>` count per
+    operation of the protocol (and one per panic class it produced); every operation must have been executed."""
+    if ctx.replay or "harness" not in ctx.harness_bin:
+        return
+    ctx.extra["operand_classes"] = dict(sorted(_OPND.items()))
+    missing = ["u " + o for o in U_OPS if ("op:u " + o) not in ctx.tags] + \
+              ["i " + o for o in I_OPS if ("op:i " + o) not in ctx.tags]
+    ctx.extra["ops_missing"] = missing
+    ctx.rules.append("tag histogram `op:<type> <method>`: number of executed lines per operation of the protocol (%d "
+                     "operations = every exported arithmetic/ordering/bit method, the constructors From64/FromUint64 and "
+                     "the three exported limits); `-> panic:<class>` counts the panics by class" % (len(U_OPS) + len(I_OPS)))
+    if missing:
+        ctx.lean_problems.append("generator no longer reaches operations: " + ", ".join(missing))
+
+
+# functions of the two anchored files that belong to C02 (conversions, text, JSON/YAML): not part of the census
+_C02_FUNCS = re.compile(r"(Float|Big|String|Format|Scan|scanText|parseToBigInt|Marshal|Unmarshal|Rand|Int64$)")
+_DIV_FAMILY = re.compile(r"^(Uint128|Int128)\.(Div|Mod|DivMod)(64)?$|^Uint128\.divmod128")
+
+
+_HW_SITES = {
+    "Uint128.Div": {"div": 1, "mod": 0, "panic": 1}, "Uint128.Div64": {"div": 2, "mod": 1, "panic": 1},
+    "Uint128.DivMod": {"div": 1, "mod": 1, "panic": 1}, "Uint128.DivMod64": {"div": 2, "mod": 2, "panic": 1},
+    "Uint128.Mod": {"div": 0, "mod": 1, "panic": 1}, "Uint128.Mod64": {"div": 0, "mod": 2, "panic": 1},
+    "Uint128.divmod128by64": {"div": 2, "mod": 2, "panic": 0}, "Uint128.divmod128by128": {"div": 1, "mod": 1, "panic": 0},
+}
+
+
+def _census(ctx):
+    """Evidence only (never an alarm): a census of the syntactically partial operations in the arithmetic / ordering /
+    bit functions of uint128.go and int128.go of the working tree - machine divisions `/ % /= %=`, explicit `panic(`,
+    index or slice expressions `[`, type assertions `.(` - per function.  The panic clause of the property is argued from
+    'the only partial operations are the divisions of the division family' (Model/U128Hw.lean makes exactly those
+    partial); this records, for the tree of this run, whether that premise still holds textually."""
+    if ctx.replay:
+        return
+    census, outside = {}, []
+    for fn, typ in (("uint128.go", "Uint128"), ("int128.go", "Int128")):
+        path = os.path.join(ctx.repo, "xmath", "num", fn)
+        if not os.path.exists(path):
+            continue
+        src = open(path, errors="replace").read()
+        src = re.sub(r'"(?:[^"\\\n]|\\.)*"', '""', src)
+        src = re.sub(r"//[^\n]*", "", src)
+        for m in re.finditer(r"^func (?:\((\w+) \*?(\w+)\) )?(\w+)\([^\n]*\{\n(.*?)^\}", src, re.S | re.M):
+            name = (m.group(2) + "." if m.group(2) else "") + m.group(3)
+            if _C02_FUNCS.search(m.group(3)):
+                continue
+            body = m.group(4)
+            c = {"div": len(re.findall(r"(?<![/*])/(?![/*=])|/=", body)), "mod": len(re.findall(r"%", body)),
+                 "panic": body.count("panic("), "index": body.count("["), "assert": body.count(".(")}
+            if any(c.values()):
+                census[name] = c
+                if not _DIV_FAMILY.match(name):
+                    outside.append(name)
+    ctx.extra["partial_ops_census"] = census
+    # the sites Model/U128Hw.lean makes partial (hwDiv / hwMod / explicit divzero per function), for comparison
+    ctx.extra["partial_ops_differ_from_model"] = sorted(
+        k for k in set(census) | set(_HW_SITES)
+        if {x: census.get(k, {}).get(x, 0) for x in ("div", "mod", "panic")} != _HW_SITES.get(k, {"div": 0, "mod": 0, "panic": 0})
+        and not k.startswith("Int128."))
+    ctx.extra["partial_ops_outside_division_family"] = outside
+    ctx.rules.append("partial-operation census (evidence only): %d functions of the arithmetic surface contain a machine "
+                     "division, an explicit panic, an index expression or a type assertion; outside the division family: %s"
+                     % (len(census), ", ".join(outside) or "none"))
 
 
 def _ssagen(ctx, repo):
@@ -111,6 +254,17 @@ def _build_gen(ctx):
     import signal
     import subprocess
     limit = 180 if ctx.tier == "quick" else 900   # a quiet machine needs 12-25 s, success or failure
+    # The limit is a wall-clock stand-in for CPU time: on a machine shared with many other builds (load average far above
+    # the core count) the same build is several times slower, and a regenerated Generated/Facts.lean of a concurrent check
+    # of another property can make this build redo the whole model.  Scale the limit with the load (at most 5x), so that a
+    # slow machine is not reported as a proof that no longer checks.
+    try:
+        over = os.getloadavg()[0] / float(os.cpu_count() or 16)
+    except OSError:
+        over = 1.0
+    if over > 1.0:
+        limit = int(limit * min(5.0, over * 2))
+    ctx.extra["c01gen_limit_s"] = limit
     if os.environ.get("VERIF_C01GEN_LIMIT", "").isdigit():
         limit = int(os.environ["VERIF_C01GEN_LIMIT"])     # for testing the time-out path
     cmd = ["lake", "build", "Props.C01Gen"]
